@@ -7,6 +7,7 @@ import (
 	"errors"
 	"fmt"
 	"os"
+	"runtime"
 	"strings"
 	"testing"
 	"time"
@@ -281,6 +282,47 @@ func TestEncodeRoundTrip(t *testing.T) {
 	})
 }
 
+// large inputs under several scheduler widths (anything that splits work by GOMAXPROCS or by chunks)
+type largeCase struct {
+	Len   int    `json:"len"`
+	Procs int    `json:"gomaxprocs"`
+	Seed  uint64 `json:"seed"`
+}
+
+func TestLargeInputs(t *testing.T) {
+	h.Run(t, h.Sub[largeCase]{
+		Prop: "C14", Name: "large-inputs-x-gomaxprocs", N: 40,
+		Gen: func(t *rapid.T) largeCase {
+			return largeCase{Len: h.OneOf(t, "len", 65535, 65536, 65537, 65539, 70001, 100003, 131072, 131075), Procs: h.OneOf(t, "procs", 1, 2, 3, 5, 7, 12, 16), Seed: rapid.Uint64().Draw(t, "seed")}
+		},
+		Check: func(c largeCase) (h.Info, error) {
+			if c.Len < 0 || c.Len > 1<<20 || c.Procs < 1 || c.Procs > 64 {
+				return h.Info{}, fmt.Errorf("PRECONDITION: large case")
+			}
+			old := runtime.GOMAXPROCS(c.Procs)
+			defer runtime.GOMAXPROCS(old)
+			data := make([]byte, c.Len)
+			s := c.Seed
+			for i := range data {
+				s = s*6364136223846793005 + 1442695040888963407
+				data[i] = byte(s >> 56)
+			}
+			data[len(data)-1] |= 1 // the last bytes are never all zero
+			info, err := checkEncode(bytesCase{Data: data})
+			info.Class, info.NT = "large", true
+			if err != nil {
+				msg := err.Error()
+				if len(msg) > 600 {
+					msg = msg[:300] + " ... " + msg[len(msg)-200:]
+				}
+				return info, fmt.Errorf("GOMAXPROCS=%d, %d bytes (seed %d): %s", c.Procs, c.Len, c.Seed, msg)
+			}
+			return info, nil
+		},
+		Rule: "configurations: inputs of 64 KiB..128 KiB (at, just below and just above 65536 and 131072, and lengths not divisible by small numbers) under GOMAXPROCS 1, 2, 3, 5, 7, 12, 16: the full encode/decode check of both codecs; all non-trivial",
+	})
+}
+
 // ---- decode direction ----
 
 type tritsCase struct {
@@ -299,6 +341,13 @@ func checkDecode(c tritsCase) (h.Info, error) {
 	case "b1t6":
 		want, werr := ref.B1T6Decode(c.Trits)
 		info := classify(c.Codec, len(c.Trits), 6, werr)
+		// a destination of exactly DecodedLen(len(src)) bytes (what the documentation asks for), then one
+		// with a spare byte
+		exact := bytes.Repeat([]byte{0xa5}, b1t6.DecodedLen(len(src)))
+		n0, err0 := b1t6.Decode(exact, src)
+		if e := compare("b1t6.Decode [dst of exactly DecodedLen bytes]", c.Trits, n0, exact, err0, want, werr, b1t6.ErrInvalidTrits, b1t6.ErrInvalidLength); e != nil {
+			return info, e
+		}
 		dst := bytes.Repeat([]byte{0xa5}, b1t6.DecodedLen(len(src))+1)
 		n, err := b1t6.Decode(dst, src)
 		if e := compare("b1t6.Decode", c.Trits, n, dst, err, want, werr, b1t6.ErrInvalidTrits, b1t6.ErrInvalidLength); e != nil {
@@ -344,6 +393,11 @@ func checkDecode(c tritsCase) (h.Info, error) {
 	case "b1t8":
 		want, werr := ref.B1T8Decode(c.Trits)
 		info := classify(c.Codec, len(c.Trits), 8, werr)
+		exact := bytes.Repeat([]byte{0xa5}, b1t8.DecodedLen(len(src)))
+		n0, err0 := b1t8.Decode(exact, src)
+		if e := compare("b1t8.Decode [dst of exactly DecodedLen bytes]", c.Trits, n0, exact, err0, want, werr, b1t8.ErrInvalidTrit, b1t8.ErrInvalidLength); e != nil {
+			return info, e
+		}
 		dst := bytes.Repeat([]byte{0xa5}, b1t8.DecodedLen(len(src))+1)
 		n, err := b1t8.Decode(dst, src)
 		if e := compare("b1t8.Decode", c.Trits, n, dst, err, want, werr, b1t8.ErrInvalidTrit, b1t8.ErrInvalidLength); e != nil {
